@@ -21,12 +21,18 @@ RULE = ("argv tail run through both tools with random.seed(s) before each: every
 ASSUMPTIONS = ["vmon/tt.py: clause evaluator and bit-sliced pseudo-Boolean adder (self-checked against a naive evaluator)",
                "equal RNG state before both runs makes random families and graphs draw the same values"]
 REQUIRED = ["pairs_compared", "exact_pairs", "sampled_pairs", "pb_side_has_non_clause_constraints", "both_refused", "cli_seed_pairs",
-            "graph_file_pairs", "text_pairs", "text_pairs_with_power_of_two_many_clauses"]
+            "graph_file_pairs", "text_pairs", "sessions_compared", "dimacs_files_with_a_variable_in_both_polarities", "text_pairs_decided_on_every_assignment", "text_pairs_with_power_of_two_many_clauses"]
 CASE_TIMEOUT = {"quick": 300, "thorough": 1800}
 
 
-def run_tool(tool, tail, seed, cli_seed=None):
+def run_tool(tool, tail, seed, cli_seed=None, prelude=()):
     random.seed(seed)
+    for ptail, pseed in prelude:
+        # earlier calls of the same tool in the same session (their own --seed given); the caller does not re-seed
+        try:
+            cli_formula(tool, [tool] + ([] if pseed is None else ["--seed", str(pseed)]) + list(ptail))
+        except (SystemExit, Exception):         # noqa: BLE001
+            pass
     pre = [] if cli_seed is None else ["--seed", str(cli_seed)]
     try:
         return "ok", cli_formula(tool, [tool] + pre + list(tail))
@@ -38,10 +44,13 @@ def run_tool(tool, tail, seed, cli_seed=None):
         return "exc", e
 
 
-def compare(ctx, sub, tail, seed, cap, nsamples, cli_seed=None):
+def compare(ctx, sub, tail, seed, cap, nsamples, cli_seed=None, prelude=()):
     label = ("" if cli_seed is None else "--seed %d " % cli_seed) + " ".join(tail) + " [random.seed(%d) before]" % seed
-    sa, A = run_tool("cnfgen", tail, seed, cli_seed)
-    sb, B = run_tool("pbgen", tail, seed + (7 if cli_seed is not None else 0), cli_seed)
+    if prelude:
+        label += " [after, in the same session and with the same tool: %s]" % "; ".join(
+            ("" if ps is None else "--seed %d " % ps) + " ".join(pt) for pt, ps in prelude)
+    sa, A = run_tool("cnfgen", tail, seed, cli_seed, prelude)
+    sb, B = run_tool("pbgen", tail, seed + (7 if cli_seed is not None else 0), cli_seed, prelude)
     if sa == "exc" or sb == "exc":
         # an escaping exception is C18's subject; here it only matters if the two tools differ
         if (sa == "exc") != (sb == "exc"):
@@ -84,7 +93,7 @@ def compare(ctx, sub, tail, seed, cap, nsamples, cli_seed=None):
                           % (label, tt.count(ma), tt.count(mb),
                              [("" if l > 0 else "~") + la[abs(l) - 1] for l in d["assignment"]],
                              "CNF" if d["in_first"] else "OPB"))
-        ctx.judged((tuple(tail), seed, cli_seed), nontrivial=na > 0,
+        ctx.judged((tuple(tail), seed, cli_seed, repr(prelude)), nontrivial=na > 0,
                    sample={"argv": tail, "seed": seed, "cli_seed": cli_seed, "variables": na, "models": tt.count(ma)})
         return
     # sampled comparison
@@ -145,6 +154,10 @@ def workload(tier, seed):
     for lo in range(0, nr, 25):
         yield "cli_seed", {"lo": lo, "hi": lo + (8 if tier == "quick" else 25)}
     yield "files", {}
+    for i in range(6 if tier == "quick" else 120):
+        yield "sessions", {"rseed": seed * 500 + i, "count": 25}
+    for i in range(2 if tier == "quick" else 20):
+        yield "dimacs_files", {"rseed": seed * 50 + i, "count": 30 if i == 0 else 22}
     yield "text_headers", {}
     named = [t for _, t in small()]
     for lo in range(0, len(named), 60):
@@ -223,6 +236,9 @@ def case_text(ctx, tails, rseed, quiet=True):
         # an assignment satisfying the CNF when one is easy to get: unit clauses decide it
         units = {c[0] for c in clauses if len(c) == 1}
         pool.append({v for v in range(1, n + 1) if v in units or (-v not in units and r.random() < 0.5)})
+        if n <= 10:
+            pool = [{v for v in range(1, n + 1) if (mask >> (v - 1)) & 1} for mask in range(1 << n)]
+            ctx.count("text_pairs_decided_on_every_assignment")
         va = eval_many(clauses, pool)
         vb = [eval_rows(T.rows, t) for t in pool]
         ctx.count("sampled_assignments", len(pool))
@@ -234,6 +250,68 @@ def case_text(ctx, tails, rseed, quiet=True):
             continue
         ctx.judged(("text", tuple(tail), rseed), nontrivial=n > 0,
                    sample={"argv": tail, "variables": n, "clauses": len(clauses), "opb_rows": len(T.rows), "satisfying_samples": sum(va)})
+
+
+def case_dimacs_files(ctx, rseed, count):
+    """`cnfgen dimacs <file>` against `pbgen dimacs <file>` on valid DIMACS files of the kinds no family produces:
+    clauses with a variable in both polarities, repeated literals, repeated clauses, the empty clause, unused
+    variables.  Formula objects (every assignment) and printed texts (every assignment) are compared."""
+    import os
+    import shutil
+    import tempfile
+    tt.selfcheck()
+    r = ctx.rng("c08dimacs", rseed)
+    tmp = tempfile.mkdtemp(prefix="c08d-")
+    fixed = [(2, [[1, -1, 2]]), (1, [[1, -1]]), (2, [[1, 1, 2]]), (3, [[2, -2, -2, 3], [1]]), (3, [[-1, 1], [2, 3], [-2, 2, -3]]),
+             (2, [[], [1, -1]]), (4, [[1, 2], [1, 2], [-4, 4, 4]]), (3, [[3, -3, 3, -3]])]
+    try:
+        for i in range(count):
+            if i < len(fixed):
+                n, cls = fixed[i]
+            else:
+                n = r.randint(1, 7)
+                cls = []
+                for _ in range(r.randint(1, 6)):
+                    w = r.randint(0, 4)
+                    c = [r.choice((1, -1)) * r.randint(1, n) for _ in range(w)]
+                    if c and r.random() < 0.6:
+                        c.insert(r.randrange(len(c) + 1), -r.choice(c))        # a variable in both polarities
+                    if c and r.random() < 0.3:
+                        c.insert(r.randrange(len(c) + 1), r.choice(c))         # a repeated literal
+                    cls.append(c)
+            path = os.path.join(tmp, "odd%d.cnf" % i)
+            with open(path, "w") as f:
+                f.write("c clauses no family produces\np cnf %d %d\n" % (n, len(cls)))
+                for c in cls:
+                    f.write(" ".join(str(l) for l in c) + " 0\n")
+            ctx.count("dimacs_file_pairs")
+            if any(-l in c for c in cls for l in c):
+                ctx.count("dimacs_files_with_a_variable_in_both_polarities")
+            compare(ctx, "dimacs", ["dimacs", path], 1, 18, 100)
+            case_text(ctx, [["dimacs", path]], rseed)
+    finally:
+        shutil.rmtree(tmp, ignore_errors=True)
+
+
+def case_sessions(ctx, rseed, count):
+    """Both tools used as functions in one session: a call with --seed followed, without re-seeding, by a call that
+    draws random numbers.  The same sequence of calls must give the same second formula with either tool."""
+    tt.selfcheck()
+    cap = 18 if ctx.tier == "quick" else 22
+    r = ctx.rng("c08sessions", rseed)
+    deterministic = {tuple(t) for _, t in small(randomized=False)}
+    rnd = [(sub, t) for sub, t in small() if tuple(t) not in deterministic]
+    every = [(sub, t) for sub, t in small()]
+    for _ in range(count):
+        sub, tail = r.choice(rnd)
+        prelude = []
+        for _k in range(r.choice((1, 1, 2))):
+            psub, ptail = r.choice(rnd if r.random() < 0.7 else every)
+            prelude.append((list(ptail), r.choice((None, 0, 3, 11)) if r.random() < 0.85 else None))
+        if all(ps is None for _, ps in prelude):
+            prelude[0] = (prelude[0][0], 3)
+        ctx.count("sessions_compared")
+        compare(ctx, sub, tail, r.randrange(1000), cap, 150, prelude=tuple((tuple(a), b) for a, b in prelude))
 
 
 def case_text_varnames(ctx, tails, rseed):
